@@ -48,6 +48,7 @@ class DCConfig:
     l2_key_absent_at_31: bool = False
     envelope_future: bool = False  # return the key for "now" even when an older one was requested (never done: conforming DC)
     tamper: t.Optional[t.Callable[..., bytes]] = None
+    tamper_bind: t.Optional[t.Callable[..., bytes]] = None  # (conn, ack_bytes, info) -> bytes, applied to bind_ack / alter_context_resp
     epm_towers: t.Optional[t.Callable[[int], t.List[t.List[tuple]]]] = None
     epm_status: int = 0
     hresult: int = 0
@@ -291,7 +292,10 @@ class Conn:
                 auth_out = dict(type=m["auth"]["type"], level=m["auth"]["level"], pad=0, ctx=m["auth"]["ctx"], token=token_out)
         flags = FL | (rpc.PFC_SUPPORT_HEADER_SIGN if (cfg.header_sign and m["auth"] is not None) else 0)
         sec_addr = (cfg.sec_addr_isd if cfg.sec_addr_isd is not None else str(self.port)) if reply_type == rpc.BIND_ACK else ""
-        return rpc.encode(dict(ptype=reply_type, flags=flags, call_id=m["call_id"], auth=auth_out, max_xmit=5840, max_recv=5840, assoc=cfg.assoc_group, sec_addr=sec_addr, results=results))
+        out = rpc.encode(dict(ptype=reply_type, flags=flags, call_id=m["call_id"], auth=auth_out, max_xmit=5840, max_recv=5840, assoc=cfg.assoc_group, sec_addr=sec_addr, results=results))
+        if cfg.tamper_bind and self.kind == "isd":
+            out = cfg.tamper_bind(self, out, dict(reply_type=reply_type, request=m))
+        return out
 
     # -----------------------------------------------------------------------
     def on_request(self, m: dict, raw: bytes) -> t.Optional[bytes]:
@@ -322,6 +326,7 @@ class Conn:
         e["bound"] = m["ctx_id"] in self.bound_contexts
         if self.sec is None or m["auth"] is None:
             e["sealed"] = False
+            e["unsealed_on_auth_connection"] = self.sec is not None
             e["plain_stub"] = m["stub"]
             plain = m["stub"]
             pad = 0
